@@ -19,10 +19,19 @@ ASSUMPTIONS = ["accounts with ambiguous last segments inside the A/L section are
                "the truncation allowance n_steps is an upper bound (bookings on the account in the window + days x held commodities + 1)"]
 TECHNIQUE = ("Coq: Abel-summation and truncation lemmas about an executable model of Valuate/ComputePrices; closed-form mark-to-market "
              "specification evaluated on the binary's CSV; byte-exact model/implementation correspondence")
-LEVEL_TEXT = ("Proved: telescoping identity, per-step truncation error and oddness, booking-day valuation of every posting, shape of the "
-              "revaluation transactions (income mirror), failure on a missing price. The end-to-end bound is partial (stated in "
-              "Properties/C03.v) and decided per run by the closed-form specification on the binary's output.")
-LEVEL_NOTE = "Trusted: kernel, extraction, harness, hand-written model (sampled tie). Partial: the induction over days for the bound."
+LEVEL_TEXT = ("Proved (Coq, closed under the global context): end to end over days, for the Valuate stage from its initial state over any "
+              "list of days and for ComputePrices followed by Valuate, every asset/liability account a and commodity c <> V: "
+              "|posted value(a,c) - quantity(a,c,T) * price(c,T)| <= n_steps * 1e-8 with n_steps the number of contributing Multiply calls "
+              "(one per booking, one per revaluation), price = normalisation of the declarations up to the last day (carried forward on days "
+              "without declarations); exact equality when no product has more than 8 decimals; a non-zero position has a price; the delta "
+              "(window) form from any reachable state; per-step truncation error and oddness; booking-day valuation of every posting; shape "
+              "of the revaluation transactions (income mirror, only open A/L positions, expenses/equity accounts never revalued); failure on "
+              "a missing price. Partial: the lifting of the window statement from the days leaving the stage to the cells of the rendered "
+              "report (Filter/Close/Query/Report and the builder's days) is stated in Properties/C03.v and decided per run by the closed-form "
+              "specification on the binary's output.")
+LEVEL_NOTE = ("Trusted: kernel, extraction, harness, hand-written model (sampled tie). Side conditions of the end-to-end theorems: syntactically "
+              "valid posting accounts, zero-quantity bookings enter with zero value. Partial: report cell = sum of the stage's posted values "
+              "in the window (C03_windowed_partial).")
 
 
 def plan(tier, seed):
